@@ -1335,6 +1335,20 @@ func goR011Total(c *Ctx, r *Repo, tp *packages.Package, fd *ast.FuncDecl) {
 				}
 			case *ast.CallExpr:
 				if calleeFunc(info, x) != self {
+					// a named type's own package is registered whenever it has one: the guard, if any, is "!= nil"
+					if fn := calleeFunc(info, x); fn != nil && fn.Name() == "addImport" && len(x.Args) >= 2 && fc.E(x.Args[1]) != "go/types.Unsafe" && strings.Contains(fc.E(x.Args[1]), ".Pkg<") {
+						for i := len(stack) - 2; i >= 0; i-- {
+							is, ok := stack[i].(*ast.IfStmt)
+							if !ok || stack[i+1] == is.Init || stack[i+1] == ast.Node(is.Cond) {
+								continue
+							}
+							nilTest, nonNil := nilTestOf(info, is.Cond)
+							if !nilTest {
+								continue // another kind of guard (e.g. "already recorded"): not this rule's business
+							}
+							c.Check(nonNil == (stack[i+1] == ast.Node(is.Body)), "R01.1", "walk-total|"+g.Name.Name+"|package-guard", r.Pos(is.Pos()), "a type's package is registered when it has one", g.Name.Name+" registers a named type's package only when the type has none (the nil test is turned round): no package is ever imported")
+						}
+					}
 					// the unsafe package is registered exactly for unsafe.Pointer
 					if fn := calleeFunc(info, x); fn != nil && fn.Name() == "addImport" && len(x.Args) >= 2 && fc.E(x.Args[1]) == "go/types.Unsafe" {
 						conds := []string{}
@@ -1371,4 +1385,25 @@ func goR011Total(c *Ctx, r *Repo, tp *packages.Package, fd *ast.FuncDecl) {
 		})
 	}
 	c.Check(len(fam) >= 1, "R01.1", "walk-total|family", r.Pos(fd.Pos()), "import walk functions examined", "no import walk function found")
+}
+
+// nilTestOf: is e a comparison of something with nil (possibly under negations), and does it hold when
+// that something is non-nil?
+func nilTestOf(info *types.Info, e ast.Expr) (isTest, holdsForNonNil bool) {
+	e = ast.Unparen(e)
+	if u, ok := e.(*ast.UnaryExpr); ok && u.Op == token.NOT {
+		t, h := nilTestOf(info, u.X)
+		return t, !h
+	}
+	be, ok := e.(*ast.BinaryExpr)
+	if !ok || !(isNilIdent(info, be.X) || isNilIdent(info, be.Y)) {
+		return false, false
+	}
+	switch be.Op {
+	case token.NEQ:
+		return true, true
+	case token.EQL:
+		return true, false
+	}
+	return false, false
 }
